@@ -343,7 +343,8 @@ def main(argv=None):
                             "obs": r.get("obs"), "sig": r.get("sig")})
 
     out_lines = []
-    replay_dir = os.path.join(ROOT, "replays", pid)
+    replay_dir = os.path.join(os.environ.get("VERIF_REPLAY_DIR",
+                                             os.path.join(ROOT, "replays")), pid)
     for key, lst in known_hits.items():
         out_lines.append("KNOWN-FINDING: property=%s %s (%s; %d case(s) this run)" % (
             pid, known_open[key]["what"], key, len(lst)))
@@ -403,9 +404,10 @@ def main(argv=None):
         "wall_s": round(wall, 2),
         "violations": len(violations),
     }
-    os.makedirs(os.path.join(ROOT, "evidence"), exist_ok=True)
+    evdir = os.environ.get("VERIF_EVIDENCE_DIR", os.path.join(ROOT, "evidence"))
+    os.makedirs(evdir, exist_ok=True)
     if not (args.gen or args.limit):
-        with open(os.path.join(ROOT, "evidence", pid + ".json"), "w") as fh:
+        with open(os.path.join(evdir, pid + ".json"), "w") as fh:
             json.dump(ev, fh, indent=1, default=str)
 
     for l in out_lines:
